@@ -3,6 +3,7 @@ sizes of the exact families (n = 8..34, tall / wide / square), so that a code pa
 variant, a threshold on n, a buffer bound) is exercised.  The outputs are judged by the same oracle judges as the
 repository-test traces and validated by TLC against MeasureTrace.tla."""
 import contextlib
+import inspect
 import io
 
 import numpy as np
@@ -288,7 +289,21 @@ def _job(args):
         return [(o.prop, o.fn, o.cls, dict(o.detail, routine=name, n=n), o.events) for o in recs]
     if name.startswith("c14:"):
         return _c14_job(name[4:], n, seed)
-    if "@" in name:
+    if name.endswith("@vb"):
+        # the same call with verbose output switched on (solver attribute or keyword): printing is supposed to be inert
+        jn, fn, a, kw = build(name[:-3], n, rng)
+        kw = dict(kw)
+        if a and hasattr(a[0], "verbose") and not isinstance(a[0], np.ndarray):
+            a[0].verbose = True
+        else:
+            try:
+                if "verbose" in inspect.signature(fn).parameters:
+                    kw["verbose"] = True
+                else:
+                    return []
+            except (TypeError, ValueError):
+                return []
+    elif "@" in name:
         how_ = name.split("@")[1]
         jn, fn, a, kw = (build_nearly if how_ in ("nh", "nt", "nu") else build_underflow if how_ == "ue" else build_aspect)(name, n, rng)
     else:
@@ -377,6 +392,13 @@ def stage(ctx, quick=False):
                 continue
             for rep in range(1 if quick else 3):
                 jobs.append((nm + "@ue", n, ctx.seed * 1013 + 37 * n + rep + len(jobs)))
+    for nm in names:
+        if nm.startswith(("c14:", "embedding_laws")):
+            continue
+        for n in ((5, 13) if quick else (3, 5, 8, 13)):
+            if n > CAP.get(nm, 1000):
+                continue
+            jobs.append((nm + "@vb", n, ctx.seed * 1013 + 41 * n + len(jobs)))
     outs = par.pmap(_job, jobs, chunk=1)
     rec = S.Rec()
     ncalls = 0
